@@ -17,8 +17,82 @@ import os, time, tempfile, shutil, bisect
 from fractions import Fraction as F
 import numpy as np
 
-from vlib.core import PropertyCheck
+import ast
+from vlib.core import PropertyCheck, TranslatorError
 from vlib import paths
+
+# variants of the working tree, read from the source with `ast` (regenerate):
+#   zl    = 1: _fill_coeff zeroes the last element of a full-length step coefficient (fixes/C14-2.patch)
+#   ndmin = 2: read_coeff calls np.loadtxt(..., ndmin=2)                              (fixes/C14-3.patch)
+FLAGS = {"zl": 0, "ndmin": 0, "read": False}
+
+
+def _func(tree, name):
+    for node in ast.walk(tree):
+        if isinstance(node, ast.FunctionDef) and node.name == name:
+            return node
+    raise TranslatorError(f"function {name} not found")
+
+
+def detect_flags():
+    src = os.path.join(paths.REPO, "src", "qutip_qip")
+    try:
+        t_pulse = ast.parse(open(os.path.join(src, "pulse.py")).read())
+        t_proc = ast.parse(open(os.path.join(src, "device", "processor.py")).read())
+    except Exception as e:
+        raise TranslatorError(f"cannot parse pulse.py / processor.py: {e}")
+    zl = None
+    for node in ast.walk(_func(t_pulse, "_fill_coeff")):
+        if isinstance(node, ast.If) and ast.unparse(node.test) == "len(old_coeffs) == len(old_tlist) - 1":
+            if not node.orelse:
+                zl = 0
+            elif (len(node.orelse) == 1 and isinstance(node.orelse[0], ast.If) and not node.orelse[0].orelse
+                  and ast.unparse(node.orelse[0].test) == "len(old_coeffs) == len(old_tlist)"
+                  and [ast.unparse(x) for x in node.orelse[0].body] == ["old_coeffs = np.concatenate([old_coeffs[:-1], [0]])"]):
+                zl = 1
+            else:
+                raise TranslatorError("padding of step coefficients in _fill_coeff not recognised: " + ast.unparse(node)[:200])
+    if zl is None:
+        raise TranslatorError("padding test of _fill_coeff not found")
+    ndmin = None
+    for node in ast.walk(_func(t_proc, "read_coeff")):
+        if isinstance(node, ast.Call) and ast.unparse(node.func) == "np.loadtxt":
+            kws = {k.arg: ast.unparse(k.value) for k in node.keywords}
+            if set(kws) - {"delimiter", "ndmin"} or kws.get("delimiter") not in ("'\\t'", '"\\t"'):
+                raise TranslatorError("np.loadtxt call of read_coeff not recognised: " + ast.unparse(node))
+            if kws.get("ndmin") not in (None, "2"):
+                raise TranslatorError("np.loadtxt call of read_coeff not recognised: " + ast.unparse(node))
+            ndmin = 2 if kws.get("ndmin") == "2" else 0
+    if ndmin is None:
+        raise TranslatorError("np.loadtxt call of read_coeff not found")
+    return {"zl": zl, "ndmin": ndmin, "read": True}
+
+
+def flags():
+    if not FLAGS["read"]:
+        try:
+            FLAGS.update(detect_flags())
+        except TranslatorError:
+            pass
+    return FLAGS
+
+
+def with_flags(line):
+    f = flags()
+    if line.startswith(("coeffs ", "fill ")):
+        return line + f" zl={f['zl']}"
+    if line.startswith("readshape "):
+        return line + f" ndmin={f['ndmin']}"
+    return line
+
+
+class _Drv:
+    """driver proxy that appends the variant flags of the working tree to every request"""
+    def __init__(self, d):
+        self.d = d
+
+    def run(self, lines):
+        return self.d.run([with_flags(l) for l in lines])
 
 TOL = F(1, 10**10)
 
@@ -473,6 +547,10 @@ class C14(PropertyCheck):
         "QipVerif.C14.save_read_labels",
         "QipVerif.C14.save_read_shape",
         "QipVerif.C14.save_read_shape_counterexample",
+        "QipVerif.C14.fill_eq_step_repaired",
+        "QipVerif.C14.fullCoeffs_eq_repaired",
+        "QipVerif.C14.save_read_shape_repaired",
+        "QipVerif.C14.variants_false",
     ]
     technique = ("Lean 4 proof (induction over the merged grid with the slot invariant, exact rationals) + model/implementation "
                  "correspondence; the solver part is numerical agreement (partial)")
@@ -514,9 +592,15 @@ class C14(PropertyCheck):
             "subsystems of dimension 2-3, optional drift, 1-4 random Hermitian controls; non-trivial = at least two channels with "
             "different grids; malformed inputs and save/reload are counted with their own tags")
 
+    def regenerate(self, ctx):
+        FLAGS.update(detect_flags())
+        ctx.log(f"variants of {paths.REPO}: step padding zeroes the last element of a full-length coefficient = {bool(FLAGS['zl'])}, "
+                f"np.loadtxt ndmin = {FLAGS['ndmin']}")
+        return []
+
     # -----------------------------------------------------------------------------------------
     def _three(self, ctx, mk):
-        outs = ctx.driver("drv_grid").run([mk(TOL), mk(TOL * (1 + F(1, 2**20))), mk(TOL * (1 - F(1, 2**20)))])
+        outs = _Drv(ctx.driver("drv_grid")).run([mk(TOL), mk(TOL * (1 + F(1, 2**20))), mk(TOL * (1 - F(1, 2**20)))])
         return outs[0], not (outs[0] == outs[1] == outs[2])
 
     def _exact_case(self, ctx, res, rng, tolstream, malformed):
@@ -589,7 +673,7 @@ class C14(PropertyCheck):
             res.disagree(inp, [[float(x) for x in r] for r in rm], np.asarray(impl[2]).tolist(), "get_full_coeffs", w)
             return
         # slices of run_analytically: dt and coefficient column, against the model
-        so = ctx.driver("drv_grid").run([f"slices t={fl(Tm)} rows=" + "!".join(fl(r) for r in rm)])[0]
+        so = _Drv(ctx.driver("drv_grid")).run([f"slices t={fl(Tm)} rows=" + "!".join(fl(r) for r in rm)])[0]
         sl = [s for s in so[3:].split(";") if s]
         Tn = np.asarray(impl[1])
         for n in range(len(Tn) - 1):
@@ -689,9 +773,9 @@ class C14(PropertyCheck):
         spec["chans"] = [dict(c) for c in spec["chans"]]
         inp = {"labels": labels, "inctime": inctime, "chans": len(spec["chans"])}
         enc = lambda s: ".".join(str(ord(c)) for c in s) if s else "-"
-        ho = ctx.driver("drv_grid").run([f"header inctime={int(inctime)} labels=" + ";".join(enc(l) for l in labels)])[0]
+        ho = _Drv(ctx.driver("drv_grid")).run([f"header inctime={int(inctime)} labels=" + ";".join(enc(l) for l in labels)])[0]
         model_line = "".join(chr(int(c)) for c in ho[3:].split(".")) if ho[3:] != "-" else ""
-        ro = ctx.driver("drv_grid").run([f"read inctime={int(inctime)} line=" + enc(model_line.split("\n")[0] + "\n")])[0]
+        ro = _Drv(ctx.driver("drv_grid")).run([f"read inctime={int(inctime)} line=" + enc(model_line.split("\n")[0] + "\n")])[0]
         model_labels = ["" if x == "-" else "".join(chr(int(c)) for c in x.split(".")) for x in ro[3:].split(";")]
         d = tempfile.mkdtemp(prefix="c14-")
         tags = ["labels-" + ("malformed" if malformed else "valid"), f"inctime={inctime}"]
@@ -723,7 +807,7 @@ class C14(PropertyCheck):
                 elif impl != ("ok", labels):
                     res.disagree(inp, model_labels, impl, "labels after read_coeff", w)
                 else:
-                    so = ctx.driver("drv_grid").run([f"readshape inctime={int(inctime)} rows={len(T0)} n={n}"])[0]
+                    so = _Drv(ctx.driver("drv_grid")).run([f"readshape inctime={int(inctime)} rows={len(T0)} n={n}"])[0]
                     mlen = [None if x == "x" else int(x) for x in so[3:].split(",")]
                     ilen = [len(q.coeff) if np.ndim(q.coeff) == 1 else None for q in p2.pulses]
                     if mlen != ilen:
@@ -825,7 +909,7 @@ class C14(PropertyCheck):
         nnum = 40 * k
         solver_how = set()
         for i in range(nnum):
-            spec = make_spec(rng, last_zero=True)
+            spec = make_spec(rng, last_zero=not flags()["zl"])
             tags = ["numeric", f"subsystems={len(spec['dims'])}", f"channels={len(spec['chans'])}",
                     "state=" + ("dm" if spec["dm"] else "ket"), "drift=" + str(bool(spec["drift"]))]
             try:
@@ -840,7 +924,7 @@ class C14(PropertyCheck):
         # cubic coefficients (numeric, partial): model = degree of the interpolant per sample count; the oracle's reference
         ncub = 0
         for n in range(0, 9):
-            mo = ctx.driver("drv_grid").run([f"splinedeg n={n}"])[0]
+            mo = _Drv(ctx.driver("drv_grid")).run([f"splinedeg n={n}"])[0]
             md = None if mo == "none" else int(mo[3:])
             cd = spline_degree_of_code(n, rng)
             inp = {"spline_degree": n}
@@ -874,7 +958,7 @@ class C14(PropertyCheck):
     def _fixed_coeffs(self, ctx, res, grids, coeffs):
         qutip, Processor, _f, Pulse = _impl()
         inp = {"chans": [["a", [fs(x) for x in g], [fs(x) for x in c]] for g, c in zip(grids, coeffs)]}
-        o = ctx.driver("drv_grid").run([f"coeffs tol={fs(TOL)} chans=" + "!".join(f"a:{fl(g)}:{fl(c)}" for g, c in zip(grids, coeffs))])[0]
+        o = _Drv(ctx.driver("drv_grid")).run([f"coeffs tol={fs(TOL)} chans=" + "!".join(f"a:{fl(g)}:{fl(c)}" for g, c in zip(grids, coeffs))])[0]
         p = Processor(1)
         for i, (g, c) in enumerate(zip(grids, coeffs)):
             p.add_pulse(Pulse(qutip.sigmax(), 0, tlist=np.array([float(x) for x in g]), coeff=np.array([float(x) for x in c]), label=f"c{i}"))
@@ -964,7 +1048,7 @@ class C14(PropertyCheck):
             labels, inctime = w["labels"], w["inctime"]
             if any(";" in l or "\n" in l for l in labels) or len(set(labels)) != len(labels):
                 return False, "precondition not met (separator or newline inside a label)"
-            if len(labels) == 1 and not inctime:
+            if len(labels) == 1 and not inctime and flags()["ndmin"] != 2:
                 return False, "single pulse without time column (recorded finding class), not judged"
             spec = {"dims": [2], "seed": 5, "drift": None, "dm": False,
                     "chans": [{"targets": [0], "tlist": [0.0, 0.5 + 0.25 * i, 1.25 + 0.5 * i], "coeff": [0.5, -0.25 + i]}
@@ -1029,7 +1113,7 @@ class C14(PropertyCheck):
         if f:
             yield RUNSTATE_WITNESS, d
         for _ in range(12):
-            spec = make_spec(rng, last_zero=True)    # full-length coefficients with non-zero last value: excluded by hypothesis
+            spec = make_spec(rng, last_zero=not flags()["zl"])    # unrepaired tree: non-zero last value excluded by hypothesis
             w = {"kind": "evolution", "spec": spec}
             f, d = self.oracle_replay(ctx, w)
             if f:
@@ -1045,7 +1129,7 @@ class C14(PropertyCheck):
         t0 = time.time()
         rng = ctx.rng
         while time.time() - t0 < budget_s:
-            spec = make_spec(rng, last_zero=True)
+            spec = make_spec(rng, last_zero=not flags()["zl"])
             w = {"kind": "evolution", "spec": spec}
             f, d = self.oracle_replay(ctx, w)
             if f:
